@@ -878,6 +878,202 @@ def c14(out):
     out.append("")
 
 
+# ---- C13: the wiring of the lexer code generator (CTLexerBuilder::build, the part that writes `lexerdef()`) ----
+def _ws(t):
+    return re.sub(r"\s+", " ", t).strip()
+
+
+def _block_after(text, start_pat, what):
+    """(body, index after the closing brace) of the `{…}` block whose opening brace ends the match of start_pat"""
+    m = re.search(start_pat, text)
+    if not m:
+        raise SystemExit(f"extract: {what} not found in lrlex/src/lib/ctbuilder.rs")
+    i = m.end() - 1
+    try:
+        j = matching(text, i, "{", "}")
+    except Exception:
+        raise SystemExit(f"extract: unbalanced braces after {what}")
+    return text[i + 1:j], j + 1
+
+
+def _pairs(name, ps, doc):
+    return [f"/-- C13: {doc} -/",
+            f"def {name} : List (String × String) := [" + ", ".join("(" + lean_str(a) + ", " + lean_str(b) + ")" for a, b in ps) + "]"]
+
+
+def c13(out):
+    lp, xp = "lrlex/src/lib/ctbuilder.rs", "lrlex/src/lib/lexer.rs"
+    t = strip_rust_comments(src(lp))
+    lx = strip_rust_comments(src(xp))
+    flag_fields = [f for f, _ in struct_fields(lx, "LexFlags", xp)]
+    # -- flags: destructuring, QuoteOption bindings, generated assignment lines
+    body, after = _block_after(t, r"let mut lexerdef_func_impl = \{", "`let mut lexerdef_func_impl = {`")
+    m = re.match(r"\s*let LexFlags \{(.*?)\} = lex_flags;(.*?)quote! \{(.*)\}\s*$", body, re.S)
+    if not m:
+        raise SystemExit("extract: the block computing `lexerdef_func_impl` no longer has the shape "
+                         "`let LexFlags { … } = lex_flags; let … = QuoteOption(…); … quote! { … }`")
+    env = {}
+    for item in m.group(1).split(","):
+        item = item.strip()
+        if not item:
+            continue
+        mm = re.match(r"(\w+)\s*(?::\s*(\w+))?$", item)
+        if not mm or mm.group(2) == "_":
+            raise SystemExit(f"extract: the destructuring of LexFlags in CTLexerBuilder::build has the item {item!r} "
+                             "(`..`, `_` or a nested pattern): a flag would not reach the generated lexer")
+        var = mm.group(2) or mm.group(1)
+        if var in env:
+            raise SystemExit(f"extract: variable {var} bound twice in the destructuring of LexFlags")
+        env[var] = (mm.group(1), False)
+    if sorted(f for f, _ in env.values()) != sorted(flag_fields):
+        raise SystemExit(f"extract: CTLexerBuilder::build destructures {sorted(f for f, _ in env.values())} but LexFlags has {sorted(flag_fields)}")
+    for st in m.group(2).split(";"):
+        st = _ws(st)
+        if not st:
+            continue
+        mm = re.match(r"let (\w+) = QuoteOption\((\w+)\)$", st)
+        if not mm:
+            raise SystemExit(f"extract: unexpected statement before the lex_flags code generation: {st!r}")
+        y, w = mm.groups()
+        if w not in env or env[w][1]:
+            raise SystemExit(f"extract: `{st}` quotes {w}, which is not an (unquoted) field of the destructured LexFlags")
+        env[y] = (env[w][0], True)
+    lines = [_ws(l) for l in m.group(3).split(";") if _ws(l)]
+    if len(lines) < 2 or lines[0] != "let mut lex_flags = ::lrlex::DEFAULT_LEX_FLAGS" or lines[-1] != "let lex_flags = lex_flags":
+        raise SystemExit("extract: the generated lex_flags block no longer starts with `let mut lex_flags = ::lrlex::DEFAULT_LEX_FLAGS;` "
+                         "and ends with `let lex_flags = lex_flags;`")
+    flag_wiring = []
+    for l in lines[1:-1]:
+        mm = re.match(r"lex_flags\.(\w+) = #(\w+)\.or\(::lrlex::DEFAULT_LEX_FLAGS\.(\w+)\)$", l)
+        if not mm:
+            raise SystemExit(f"extract: generated lex_flags line is not of the shape `lex_flags.X = #Y.or(::lrlex::DEFAULT_LEX_FLAGS.Z);`: {l!r}")
+        x, y, z = mm.groups()
+        if y not in env or not env[y][1]:
+            raise SystemExit(f"extract: generated line `{l}` interpolates #{y}, which is not a QuoteOption of a LexFlags field")
+        flag_wiring.append((x, env[y][0], z))
+    # -- the block that generates the rules and the start states
+    rest = t[after:]
+    m = re.match(r"\s*;\s*\{", rest)
+    if not m:
+        raise SystemExit("extract: the block after `lexerdef_func_impl` (start states and rules) is not where it was")
+    try:
+        j = matching(rest, m.end() - 1, "{", "}")
+    except Exception:
+        raise SystemExit("extract: unbalanced braces in the rules block")
+    blk, tail = rest[m.end():j], rest[j + 1:]
+    m = re.match(r"\s*let start_states = ([^;]*);\s*let rules = (.*?)\.map\(\|r\| \{", blk, re.S)
+    if not m:
+        raise SystemExit("extract: the rules block no longer starts `let start_states = …; let rules = ….map(|r| {`")
+    states_iter = _ws(m.group(1))
+    try:
+        k = matching(blk, m.end() - 1, "{", "}")
+    except Exception:
+        raise SystemExit("extract: unbalanced braces in the per-rule closure")
+    closure = blk[m.end():k]
+    mm = re.match(r"\)([^;]*);(.*)$", blk[k + 1:], re.S)
+    if not mm:
+        raise SystemExit("extract: the per-rule closure is not closed by `});`")
+    rules_iter = _ws(m.group(2)) + _ws(mm.group(1))
+    if _ws(mm.group(2)) != "lexerdef_func_impl.append_all(quote! { let start_states: Vec<StartState> = vec![#(#start_states),*]; let rules = vec![#(#rules),*]; });":
+        raise SystemExit("extract: the statement generating `let start_states … = vec![…]; let rules = vec![…];` changed shape "
+                         "(something between the iterators and the generated vectors?): " + _ws(mm.group(2))[:200])
+    mt = re.match(r"\s*let lexerdef_ty = match lexerkind \{.*?\};\s*lexerdef_func_impl\.append_all\(quote! \{\s*#lexerdef_ty::from_rules\(start_states, rules\)\s*\}\);", tail, re.S)
+    if not mt:
+        raise SystemExit("extract: the generated return value is no longer `#lexerdef_ty::from_rules(start_states, rules)`")
+    # -- per rule: let bindings and the generated call
+    mq = re.match(r"(.*?)quote! \{\s*Rule::new\((.*)\)\.unwrap\(\)\s*\}\s*$", closure, re.S)
+    if not mq:
+        raise SystemExit("extract: the per-rule closure no longer ends in `quote! { Rule::new(…).unwrap() }`")
+    renv = {}
+    shape = re.compile(r"^(?:Quote(?:Option|ToString)\()*&?r\.(\w+)(\(\))?(?:\.map\((?:QuoteToString|\|\(x, y\)\| QuoteTuple\(\(x, y\)\))\))?\)*$")
+    for st in mq.group(1).split(";"):
+        st = _ws(st)
+        if not st:
+            continue
+        ml = re.match(r"let (\w+) = (.*)$", st)
+        ms = shape.match(ml.group(2)) if ml else None
+        if not ms or ml.group(2).count("(") != ml.group(2).count(")"):
+            raise SystemExit(f"extract: statement of the per-rule closure is not `let V = <quoting of r.ACCESSOR>`: {st!r}")
+        if ml.group(1) in renv:
+            raise SystemExit(f"extract: per-rule variable {ml.group(1)} bound twice")
+        renv[ml.group(1)] = ms.group(1) + (ms.group(2) or "")
+    args = [_ws(a) for a in split_top(mq.group(2))]
+    # parameters of Rule::new and its struct literal
+    mn = re.search(r"pub fn new\((.*?)\)\s*->\s*Result<Rule<StorageT>, regex::Error>\s*\{(.*?)\n    \}\n", lx, re.S)
+    if not mn:
+        raise SystemExit("extract: `Rule::new(…) -> Result<Rule<StorageT>, regex::Error>` not found in lexer.rs")
+    params = []
+    for prm in split_top(mn.group(1)):
+        mp = re.match(r"\s*(\w+)\s*:", prm)
+        if not mp:
+            raise SystemExit(f"extract: cannot read a parameter of Rule::new: {prm!r}")
+        params.append(mp.group(1))
+    if len(params) != len(args):
+        raise SystemExit(f"extract: generated Rule::new call has {len(args)} arguments, Rule::new has {len(params)} parameters")
+    rule_wiring = []
+    for prm, a in zip(params, args):
+        if prm == "_":
+            if a != "::lrlex::unstable_api::InternalPublicApi":
+                raise SystemExit(f"extract: first argument of the generated Rule::new is {a!r}")
+            continue
+        if prm == "lex_flags":
+            if a != "&lex_flags":
+                raise SystemExit(f"extract: the lex_flags argument of the generated Rule::new is {a!r}, not the generated local `&lex_flags`")
+            rule_wiring.append((prm, "&lex_flags"))
+            continue
+        ma = re.match(r"(?:#(\w+)|vec!\[#\(#(\w+)\),\*\])$", a)
+        if not ma:
+            raise SystemExit(f"extract: argument {a!r} of the generated Rule::new (parameter {prm}) is not `#var` or `vec![#(#var),*]`")
+        v = ma.group(1) or ma.group(2)
+        if v not in renv:
+            raise SystemExit(f"extract: argument {a!r} of the generated Rule::new interpolates a variable not bound from the run-time rule `r`")
+        rule_wiring.append((prm, renv[v]))
+    ml = re.search(r"Ok\(Rule \{(.*?)\}\)", mn.group(2), re.S)
+    if not ml:
+        raise SystemExit("extract: Rule::new no longer ends in the struct literal `Ok(Rule { … })`")
+    stores, derived = [], []
+    for item in split_top(ml.group(1)):
+        item = _ws(item)
+        if not item:
+            continue
+        mi = re.match(r"(\w+)(?:\s*:\s*(\w+))?$", item)
+        if not mi:
+            raise SystemExit(f"extract: field initialiser {item!r} of Rule::new's struct literal is not `field` or `field: ident`")
+        f, v = mi.group(1), mi.group(2) or mi.group(1)
+        if v in params:
+            stores.append((v, f))
+        else:
+            derived.append(f)
+    rule_fields = [f for f, _ in struct_fields(lx, "Rule", xp)]
+    # accessors of Rule: `pub fn A(&self) -> … { … self.F… }`
+    mi = re.search(r"impl<StorageT: PrimInt> Rule<StorageT> \{", lx)
+    if not mi:
+        raise SystemExit("extract: `impl<StorageT: PrimInt> Rule<StorageT>` not found")
+    impl = lx[mi.end():matching(lx, mi.end() - 1, "{", "}")]
+    accessors = []
+    for ma in re.finditer(r"pub fn (\w+)\(&self\)[^{]*\{([^{}]*)\}", impl):
+        reads = sorted(set(re.findall(r"\bself\.(\w+)\b", ma.group(2))))
+        if len(reads) != 1:
+            raise SystemExit(f"extract: accessor Rule::{ma.group(1)} reads {reads}, not exactly one field")
+        if not re.match(r"\s*(?:#\[allow\(deprecated\)\]\s*)?&?self\.\w+(?:\.as_deref\(\)|\.as_slice\(\)|\.clone\(\))?\s*$", ma.group(2)):
+            raise SystemExit(f"extract: accessor Rule::{ma.group(1)} does more than hand out a field: {_ws(ma.group(2))!r}")
+        accessors.append((ma.group(1) + "()", reads[0]))
+    out.append("/-- C13: fields of `struct LexFlags` (lrlex/src/lib/lexer.rs), in order -/")
+    out.append("def C13_LEXFLAGS_FIELDS : List String := [" + ", ".join(lean_str(f) for f in flag_fields) + "]")
+    out.append("/-- C13: for every generated line `lex_flags.X = #Y.or(::lrlex::DEFAULT_LEX_FLAGS.Z)`: (X, LexFlags field that Y was bound from, Z) -/")
+    out.append("def C13_FLAG_WIRING : List (String × String × String) := [" + ", ".join("(" + ", ".join(lean_str(a) for a in w) + ")" for w in flag_wiring) + "]")
+    out.extend(_pairs("C13_RULE_WIRING", rule_wiring, "for every parameter of `Rule::new` but the API marker: (parameter, accessor/field of the run-time rule the generated argument is computed from)"))
+    out.extend(_pairs("C13_RULE_NEW_STORES", stores, "(parameter of `Rule::new`, field of `Rule` it is stored in)"))
+    out.extend(_pairs("C13_RULE_ACCESSORS", accessors, "(accessor of `Rule`, the one field it hands out)"))
+    out.append("/-- C13: fields of `struct Rule`; those that `Rule::new` computes itself (from the regex text and the flags) -/")
+    out.append("def C13_RULE_FIELDS : List String := [" + ", ".join(lean_str(f) for f in rule_fields) + "]")
+    out.append("def C13_RULE_DERIVED_FIELDS : List String := [" + ", ".join(lean_str(f) for f in derived) + "]")
+    out.append("/-- C13: the expressions the generated rules / start states are taken from (white space normalised; the `.map(|r| {…})` that quotes one rule is cut out) -/")
+    out.append("def C13_RULES_ITER : String := " + lean_str(rules_iter))
+    out.append("def C13_STATES_ITER : String := " + lean_str(states_iter))
+    out.append("")
+
+
 def section(prop, fn, old_text, failures):
     """Run one property's extractor. Its output is framed by markers; when it fails (the source no
     longer has the expected shape) the previous block is kept, so that the Lean library still builds
@@ -920,6 +1116,7 @@ def main():
 
     out += section("C15", c15w, old, failures)
     out += section("C14", c14, old, failures)
+    out += section("C13", c13, old, failures)
     out += ["end GrmVerif.Extracted", ""]
     new = "\n".join(out)
     if old != new:
